@@ -84,6 +84,20 @@ def subst(t, vals):
     return t
 
 
+def canon_tmpl(t):
+    """literal parts as Python evaluates them (duplicate set members collapse: `{1.0, True}` has one member)"""
+    if isinstance(t, dict):
+        if "v" in t:
+            return t
+        if "cat" in t:
+            return t
+        if has_hole(t):
+            if "l" in t:
+                return {"l": [canon_tmpl(x) for x in t["l"]]}
+            return {"d": [[k, canon_tmpl(x)] for k, x in t["d"]]}
+    return vj.enc(vj.dec(t))
+
+
 def render_tmpl(t, var):
     """Colang source of a template; `var(i)` = source text of variable i"""
     base = _base()
@@ -450,7 +464,7 @@ def model_request(case, obs):
         else:
             args = [["x", seen]] + ([["t", {"i": s["t"]}]] if s.get("t") is not None else [])
             steps.append({"op": "ev", "args": args})
-    return {"m": "C04.hist", "tmpl": [["x", case["tmpl"]]], "init": obs["init_seen"], "tags": list(range(case["ninst"])), "loop": case["loop"],
+    return {"m": "C04.hist", "tmpl": [["x", canon_tmpl(case["tmpl"])]], "init": obs["init_seen"], "tags": list(range(case["ninst"])), "loop": case["loop"],
             "steps": steps, "rx": obs["rx"]}
 
 
